@@ -27,6 +27,7 @@ func checkC09(w *World, r *Report) {
 	checkCursorReset(w, r, "C09.5")
 	checkSkipStackReset(w, r, "C09.6")
 	checkC09HostHasNoSlash(w, r)
+	checkC09BracketsOnlyAroundIPv6(w, r)
 }
 
 // findCalls returns the call expressions to fn name inside the function body.
@@ -438,4 +439,111 @@ func checkC09HostHasNoSlash(w *World, r *Report) {
 		}
 	}
 	ru.Check("hostname attempt in roots.lookup", w.Pos(c.Pos()), "entered only for a host without '/'", ok, orDefault(map[bool]string{true: "tested"}[ok], why+": a Host such as \"a.b/x\" walks through the '/' child into the path nodes"))
+}
+
+// checkC09BracketsOnlyAroundIPv6: "the request Host, with any port and one trailing dot removed". Square brackets are
+// part of the syntax of an IPv6 literal with a port ([::1]:80) and go with the port; around anything else they are
+// bytes of the host. The normaliser may drop the first and last byte of the host part only where the text between the
+// brackets is known to contain a ':'.
+func checkC09BracketsOnlyAroundIPv6(w *World, r *Report) {
+	ru := r.Rule("C09.8", "brackets are removed only around an IPv6 literal: in netutil.StripHostPort a value that drops the first and last byte of the host part (the surrounding \"[\" \"]\") reaches a return only where the text between them is known to contain ':'", 1)
+	fn := w.FuncIn(modulePath+"/internal/netutil", "StripHostPort")
+	r.Analysed(FuncName(fn))
+	// the bracket-dropping reslices: x[1 : len(x)-1]
+	var drops []*ssa.Slice
+	eachInstr(fn, func(in ssa.Instruction) {
+		sl, ok := in.(*ssa.Slice)
+		if !ok || sl.Low == nil || sl.High == nil {
+			return
+		}
+		if k, ok := constInt(sl.Low); !ok || k != 1 {
+			return
+		}
+		if bo, ok := sl.High.(*ssa.BinOp); ok && bo.Op == token.SUB {
+			if one, ok := constInt(bo.Y); ok && one == 1 {
+				drops = append(drops, sl)
+			}
+		}
+	})
+	dependsOn := func(v ssa.Value, on ssa.Value) bool {
+		seen := map[ssa.Value]bool{}
+		var walk func(x ssa.Value, d int) bool
+		walk = func(x ssa.Value, d int) bool {
+			if x == nil || seen[x] || d > 8 {
+				return false
+			}
+			seen[x] = true
+			if x == on {
+				return true
+			}
+			if _, isPhi := x.(*ssa.Phi); isPhi {
+				return false // phis are handled edge by edge by the caller
+			}
+			if in, ok := x.(ssa.Instruction); ok {
+				for _, op := range in.Operands(nil) {
+					if op != nil && *op != nil && walk(*op, d+1) {
+						return true
+					}
+				}
+			}
+			return false
+		}
+		return walk(v, 0)
+	}
+	hasColonFact := func(fs []Fact, sl *ssa.Slice) bool {
+		for _, ft := range fs {
+			c, ok := ft.Cond.(*ssa.Call)
+			if !ok || !ft.Val {
+				continue
+			}
+			obj := calleeObj(c)
+			if obj == nil || obj.Pkg() == nil || obj.Pkg().Path() != "strings" || !strings.HasPrefix(obj.Name(), "Contains") || len(c.Call.Args) != 2 {
+				continue
+			}
+			if s, ok := constString(c.Call.Args[1]); (ok && s == ":") || func() bool { k, ok := constInt(c.Call.Args[1]); return ok && k == ':' }() {
+				if sameExpr(c.Call.Args[0], sl) {
+					return true
+				}
+			}
+		}
+		return false
+	}
+	n := 0
+	for _, sl := range drops {
+		// every way the slice reaches a return
+		eachInstr(fn, func(in ssa.Instruction) {
+			ret, ok := in.(*ssa.Return)
+			if !ok || len(ret.Results) == 0 {
+				return
+			}
+			// find a phi feeding the return value, if any
+			var visit func(v ssa.Value, facts []Fact, depth int)
+			visit = func(v ssa.Value, facts []Fact, depth int) {
+				if depth > 6 {
+					return
+				}
+				if dependsOn(v, sl) {
+					n++
+					okk := hasColonFact(facts, sl)
+					ru.Check("bracket removal in StripHostPort", w.Pos(sl.Pos()), "returned only where the bracketed text contains ':'", okk, orDefault(map[bool]string{true: "IPv6 literal"}[okk], "any bracketed host loses its brackets once a port follows: Host \"[a.com]:80\" becomes \"a.com\" and matches the route a.com/"))
+					return
+				}
+				// look through calls (TrimSuffix) to phis
+				switch x := v.(type) {
+				case *ssa.Phi:
+					for i, e := range x.Edges {
+						visit(e, append(append([]Fact{}, facts...), factsOnEdge(x.Block().Preds[i], x.Block())...), depth+1)
+					}
+				case *ssa.Call:
+					for _, a := range x.Call.Args {
+						visit(a, facts, depth+1)
+					}
+				}
+			}
+			visit(ret.Results[0], factsAtBlock(ret.Block()), 0)
+		})
+	}
+	if n == 0 {
+		ru.Pass("bracket removal in StripHostPort", w.Pos(fn.Pos()), "no bracket removal reaches a return", "the normaliser does not drop brackets")
+	}
 }
